@@ -59,7 +59,7 @@ def gen_profile(rng, focus=None):
     p["multi_edge"] = rng.random() < 0.15  # the same pair of tasks linked by two dependencies of different kinds
     p["multi_parent"] = rng.random() < 0.25  # (nested products) a component with two parents
     p["reg_shuffle"] = rng.random() < 0.3  # teams/workplaces register their targets in another order than the organization lists
-    p["ctor_targets"] = rng.random() < 0.1  # a team gets its targets through the constructor (registered on the team side only)
+    p["ctor_targets"] = rng.random() < 0.2  # a team gets its targets through the constructor (registered on the team side only)
     p["assign_style"] = rng.random() < 0.15  # workers built with defaults, skill maps filled item by item
     p["assign_list"] = rng.random() < 0.15  # workflow built with `wf.task_list = [...]` (parent_workflow set lazily)
     p.update(focus)
@@ -250,7 +250,10 @@ def gen_model(rng, p, n_tasks=None):
         rng.shuffle(reg)
         m["reg_order"] = reg
     if p.get("ctor_targets") and teams:
-        rng.choice(teams)["ctor_targets"] = True
+        tm_ = rng.choice(teams)
+        sub = [k for k in tm_["targets"] if rng.random() < 0.5]
+        if sub:
+            tm_["ctor_targets"] = sub
     if p.get("assign_style"):
         m["assign_style"] = True
     if p.get("dup_names") and n > 1:
